@@ -216,7 +216,7 @@ CHECKS = {
             {"pkg": "clusterx", "run": "^TestC01_Cluster$", "quick": 160, "thorough": 8400, "shards": {"quick": 5, "thorough": 14}, "shrinktime": "20s"},
         ],
         "floors": {"election_triggered": 0.05},
-        "rule": "generated programs of 8-30 steps over a cluster of 3 or 5 real storage nodes (+0-1 spare) and the real coordinator ShardController, all in one process and connected by a harness-owned wire: client writes (put / conditional put / delete / delete-range, each with a unique marker record) and reads sent to the node the client believes to be leader (current, remembered or arbitrary), bursts of 2-4 concurrent operations, isolate / cut link / heal, graceful node restart, node stop/start (minority), 'node unavailable' notifications to the coordinator, coordinator restart from the stored metadata, holding a node's next NewTerm response, node swap to the spare, settle pauses; WAL segments of 1 KiB..64 KiB so rollovers and truncations cross segments. At the end everything is healed and restarted, a fresh coordinator elects, a final write is issued and the ensemble catches up. Every message, metadata store and client invoke/return is recorded in one ordered history. Oracle (C01): every acknowledged write's marker is in the final leader's log (exactly once) and the final leader's database equals the in-order application of its own log to an empty database (decoded dump comparison). Non-trivial: >=1 acknowledged write and >=1 of {election triggered, restart, partition, swap, coordinator restart}.",
+        "rule": "generated programs of 8-30 steps over a cluster of 3 or 5 real storage nodes (+0-1 spare) and the real coordinator ShardController, all in one process and connected by a harness-owned wire: client writes (put / conditional put / delete / delete-range, each with a unique marker record) and reads sent to the node the client believes to be leader (current, remembered or arbitrary), bursts of 2-4 concurrent operations, isolate / cut link / heal, graceful node restart, node stop/start (minority), 'node unavailable' notifications to the coordinator, coordinator restart from the stored metadata, holding a node's next NewTerm response, late re-delivery of any coordination request sent so far (duplicates, messages of superseded elections), node swap to the spare, settle pauses; WAL segments of 1 KiB..64 KiB so rollovers and truncations cross segments. At the end everything is healed and restarted, a fresh coordinator elects, a final write is issued and the ensemble catches up. Every message, metadata store and client invoke/return is recorded in one ordered history. Oracle (C01): every acknowledged write's marker is in the final leader's log (exactly once) and the final leader's database equals the in-order application of its own log to an empty database (decoded dump comparison). Non-trivial: >=1 acknowledged write and >=1 of {election triggered, restart, partition, swap, coordinator restart}.",
         "assumptions": ["a write that gets no answer within 1.5 s is 'unknown' (may or may not be applied)", 'crashes are graceful stops in this engine (kill -9 images are exercised at the WAL/DB level by C07/C10)', 'a case whose final election does not produce a stable leader within the bound, or in which a node goroutine panicked, is inconclusive (counted)'],
     },
     "C02": {
@@ -225,7 +225,7 @@ CHECKS = {
             {"pkg": "clusterx", "run": "^TestC02_Cluster$", "quick": 160, "thorough": 8400, "shards": {"quick": 5, "thorough": 14}, "shrinktime": "20s"},
         ],
         "floors": {"election_triggered": 0.05},
-        "rule": "generated programs of 8-30 steps over a cluster of 3 or 5 real storage nodes (+0-1 spare) and the real coordinator ShardController, all in one process and connected by a harness-owned wire: client writes (put / conditional put / delete / delete-range, each with a unique marker record) and reads sent to the node the client believes to be leader (current, remembered or arbitrary), bursts of 2-4 concurrent operations, isolate / cut link / heal, graceful node restart, node stop/start (minority), 'node unavailable' notifications to the coordinator, coordinator restart from the stored metadata, holding a node's next NewTerm response, node swap to the spare, settle pauses; WAL segments of 1 KiB..64 KiB so rollovers and truncations cross segments. At the end everything is healed and restarted, a fresh coordinator elects, a final write is issued and the ensemble catches up. Every message, metadata store and client invoke/return is recorded in one ordered history. Oracle (C02): the committed log of the final leader is the candidate linearization: no request appears twice; a request refused before its WAL append never appears; each acknowledged response equals what the reference fold yields at its log position; real-time order of non-overlapping writes is respected; every successful read equals the state after some committed prefix inside its real-time window (a read at a node whose term was already superseded in the metadata store may be older, but must still match a committed prefix). Non-trivial: as C01 plus >=1 burst of concurrent operations.",
+        "rule": "generated programs of 8-30 steps over a cluster of 3 or 5 real storage nodes (+0-1 spare) and the real coordinator ShardController, all in one process and connected by a harness-owned wire: client writes (put / conditional put / delete / delete-range, each with a unique marker record) and reads sent to the node the client believes to be leader (current, remembered or arbitrary), bursts of 2-4 concurrent operations, isolate / cut link / heal, graceful node restart, node stop/start (minority), 'node unavailable' notifications to the coordinator, coordinator restart from the stored metadata, holding a node's next NewTerm response, late re-delivery of any coordination request sent so far (duplicates, messages of superseded elections), node swap to the spare, settle pauses; WAL segments of 1 KiB..64 KiB so rollovers and truncations cross segments. At the end everything is healed and restarted, a fresh coordinator elects, a final write is issued and the ensemble catches up. Every message, metadata store and client invoke/return is recorded in one ordered history. Oracle (C02): the committed log of the final leader is the candidate linearization: no request appears twice; a request refused before its WAL append never appears; each acknowledged response equals what the reference fold yields at its log position; real-time order of non-overlapping writes is respected; every successful read equals the state after some committed prefix inside its real-time window (a read at a node whose term was already superseded in the metadata store may be older, but must still match a committed prefix). Non-trivial: as C01 plus >=1 burst of concurrent operations.",
         "assumptions": ['reads are single-key gets', "unknown-outcome writes count as 'at most once'"],
     },
     "C03": {
@@ -235,7 +235,7 @@ CHECKS = {
             {"pkg": "clusterx", "run": "^TestC03_Follower$", "quick": 600, "thorough": 20000, "shards": {"quick": 4, "thorough": 14}, "shrinktime": "20s"},
         ],
         "floors": {"election_triggered": 0.05},
-        "rule": "generated programs of 8-30 steps over a cluster of 3 or 5 real storage nodes (+0-1 spare) and the real coordinator ShardController, all in one process and connected by a harness-owned wire: client writes (put / conditional put / delete / delete-range, each with a unique marker record) and reads sent to the node the client believes to be leader (current, remembered or arbitrary), bursts of 2-4 concurrent operations, isolate / cut link / heal, graceful node restart, node stop/start (minority), 'node unavailable' notifications to the coordinator, coordinator restart from the stored metadata, holding a node's next NewTerm response, node swap to the spare, settle pauses; WAL segments of 1 KiB..64 KiB so rollovers and truncations cross segments. At the end everything is healed and restarted, a fresh coordinator elects, a final write is issued and the ensemble catches up. Every message, metadata store and client invoke/return is recorded in one ordered history. Oracle (C03): at the instant an Ack leaves a follower (observed on the wire) its durable log head (or the commit offset of its database after a snapshot installation) covers the offset and the stored entry equals what the leader put on that stream (or holds in its log); at the end any two replicas agree on every entry at or below either one's commit offset and replicas with equal commit offset have identical databases. Non-trivial: as C01.",
+        "rule": "generated programs of 8-30 steps over a cluster of 3 or 5 real storage nodes (+0-1 spare) and the real coordinator ShardController, all in one process and connected by a harness-owned wire: client writes (put / conditional put / delete / delete-range, each with a unique marker record) and reads sent to the node the client believes to be leader (current, remembered or arbitrary), bursts of 2-4 concurrent operations, isolate / cut link / heal, graceful node restart, node stop/start (minority), 'node unavailable' notifications to the coordinator, coordinator restart from the stored metadata, holding a node's next NewTerm response, late re-delivery of any coordination request sent so far (duplicates, messages of superseded elections), node swap to the spare, settle pauses; WAL segments of 1 KiB..64 KiB so rollovers and truncations cross segments. At the end everything is healed and restarted, a fresh coordinator elects, a final write is issued and the ensemble catches up. Every message, metadata store and client invoke/return is recorded in one ordered history. Oracle (C03): at the instant an Ack leaves a follower (observed on the wire) its durable log head (or the commit offset of its database after a snapshot installation) covers the offset and the stored entry equals what the leader put on that stream (or holds in its log); at the end any two replicas agree on every entry at or below either one's commit offset and replicas with equal commit offset have identical databases. Non-trivial: as C01.",
         "assumptions": ['gated follower-level schedules (sync parked, duplicate re-delivery) are a separate test of this property'],
     },
     "C04": {
@@ -245,7 +245,7 @@ CHECKS = {
             {"pkg": "clusterx", "run": "^TestC04_Follower$", "quick": 600, "thorough": 20000, "shards": {"quick": 4, "thorough": 14}, "shrinktime": "20s"},
         ],
         "floors": {"election_triggered": 0.05},
-        "rule": "generated programs of 8-30 steps over a cluster of 3 or 5 real storage nodes (+0-1 spare) and the real coordinator ShardController, all in one process and connected by a harness-owned wire: client writes (put / conditional put / delete / delete-range, each with a unique marker record) and reads sent to the node the client believes to be leader (current, remembered or arbitrary), bursts of 2-4 concurrent operations, isolate / cut link / heal, graceful node restart, node stop/start (minority), 'node unavailable' notifications to the coordinator, coordinator restart from the stored metadata, holding a node's next NewTerm response, node swap to the spare, settle pauses; WAL segments of 1 KiB..64 KiB so rollovers and truncations cross segments. At the end everything is healed and restarted, a fresh coordinator elects, a final write is issued and the ensemble catches up. Every message, metadata store and client invoke/return is recorded in one ordered history. Oracle (C04): after a node answered NewTerm(T) with head h its WAL head stays at h until an Append / Truncate / snapshot / BecomeLeader of a term >= T is delivered to it (polled after every step); it sends no Ack on a stream of a lower term (acks rejected by the torn-down stream do not count); no write or read invoked at it afterwards is served under a lower term. Non-trivial: as C01.",
+        "rule": "generated programs of 8-30 steps over a cluster of 3 or 5 real storage nodes (+0-1 spare) and the real coordinator ShardController, all in one process and connected by a harness-owned wire: client writes (put / conditional put / delete / delete-range, each with a unique marker record) and reads sent to the node the client believes to be leader (current, remembered or arbitrary), bursts of 2-4 concurrent operations, isolate / cut link / heal, graceful node restart, node stop/start (minority), 'node unavailable' notifications to the coordinator, coordinator restart from the stored metadata, holding a node's next NewTerm response, late re-delivery of any coordination request sent so far (duplicates, messages of superseded elections), node swap to the spare, settle pauses; WAL segments of 1 KiB..64 KiB so rollovers and truncations cross segments. At the end everything is healed and restarted, a fresh coordinator elects, a final write is issued and the ensemble catches up. Every message, metadata store and client invoke/return is recorded in one ordered history. Oracle (C04): after a node answered NewTerm(T) with head h its WAL head stays at h until an Append / Truncate / snapshot / BecomeLeader of a term >= T is delivered to it (polled after every step); it sends no Ack on a stream of a lower term (acks rejected by the torn-down stream do not count); no write or read invoked at it afterwards is served under a lower term. Non-trivial: as C01.",
         "assumptions": [],
     },
     "C05": {
@@ -255,7 +255,7 @@ CHECKS = {
             {"pkg": "coordx", "run": "^TestC05_MetaFile$", "quick": 400, "thorough": 24000, "shards": {"quick": 4, "thorough": 16}, "shrinktime": "20s"},
         ],
         "floors": {"election_triggered": 0.03, "killed_inside_store": 0.02},
-        "rule": "generated programs of 8-30 steps over a cluster of 3 or 5 real storage nodes (+0-1 spare) and the real coordinator ShardController, all in one process and connected by a harness-owned wire: client writes (put / conditional put / delete / delete-range, each with a unique marker record) and reads sent to the node the client believes to be leader (current, remembered or arbitrary), bursts of 2-4 concurrent operations, isolate / cut link / heal, graceful node restart, node stop/start (minority), 'node unavailable' notifications to the coordinator, coordinator restart from the stored metadata, holding a node's next NewTerm response, node swap to the spare, settle pauses; WAL segments of 1 KiB..64 KiB so rollovers and truncations cross segments. At the end everything is healed and restarted, a fresh coordinator elects, a final write is issued and the ensemble catches up. Every message, metadata store and client invoke/return is recorded in one ordered history. Oracle (C05) over the recorded coordinator events: every NewTerm/BecomeLeader/AddFollower carries the term of the latest successful metadata store and terms sent never go down, also across coordinator restarts; per term at most one node answers BecomeLeader successfully; every installed leader is a member of the stored ensemble, a majority of that ensemble had answered NewTerm(T) before the request was sent, and its reported head is maximal among the responders in its follower map; a node never answers NewTerm for a term below one it answered before and its reported term never decreases, also across restarts. Non-trivial: as C01. Second generator (TestC05_MetaFile, coordinator crash points INSIDE a metadata write of the file provider): a history of cluster statuses with growing terms, 0-2 stores by earlier incarnations, 1-3 stores by a child process running the real provider under strace with SIGKILL injected just before its k-th system call on the status file (k generated; one locked OS thread so the enumeration is deterministic); a fresh provider must then refuse to start or read exactly the last acknowledged or the in-flight status (never 'no metadata', a lower term or a mix) and be able to store from the version it read. Non-trivial there: the child was killed between the start and the return of a Store.",
+        "rule": "generated programs of 8-30 steps over a cluster of 3 or 5 real storage nodes (+0-1 spare) and the real coordinator ShardController, all in one process and connected by a harness-owned wire: client writes (put / conditional put / delete / delete-range, each with a unique marker record) and reads sent to the node the client believes to be leader (current, remembered or arbitrary), bursts of 2-4 concurrent operations, isolate / cut link / heal, graceful node restart, node stop/start (minority), 'node unavailable' notifications to the coordinator, coordinator restart from the stored metadata, holding a node's next NewTerm response, late re-delivery of any coordination request sent so far (duplicates, messages of superseded elections), node swap to the spare, settle pauses; WAL segments of 1 KiB..64 KiB so rollovers and truncations cross segments. At the end everything is healed and restarted, a fresh coordinator elects, a final write is issued and the ensemble catches up. Every message, metadata store and client invoke/return is recorded in one ordered history. Oracle (C05) over the recorded coordinator events: every NewTerm/BecomeLeader/AddFollower carries the term of the latest successful metadata store and terms sent never go down, also across coordinator restarts; per term at most one node answers BecomeLeader successfully; every installed leader is a member of the stored ensemble, a majority of that ensemble had answered NewTerm(T) before the request was sent, and its reported head is maximal among the responders in its follower map; a node never answers NewTerm for a term below one it answered before and its reported term never decreases, also across restarts. Non-trivial: as C01. Second generator (TestC05_MetaFile, coordinator crash points INSIDE a metadata write of the file provider): a history of cluster statuses with growing terms, 0-2 stores by earlier incarnations, 1-3 stores by a child process running the real provider under strace with SIGKILL injected just before its k-th system call on the status file (k generated; one locked OS thread so the enumeration is deterministic); a fresh provider must then refuse to start or read exactly the last acknowledged or the in-flight status (never 'no metadata', a lower term or a mix) and be able to store from the version it read. Non-trivial there: the child was killed between the start and the return of a Store.",
         "assumptions": ['coordinator crash points are restarts between steps (not inside a metadata write)'],
     },
     "C20": {
